@@ -57,13 +57,19 @@ func check(c Case) error {
 	// every record alone
 	alone := make([]poly.Sequence, len(c.Records))
 	for i, r := range c.Records {
+		var guardErr error
 		got, err := parse(fmt.Sprintf("Parse(record %d)", i), func() []poly.Sequence {
-			buf := []byte(each[i]) // a buffer of the parser's own, overwritten once it has returned
+			buf, intact := vk.Guarded([]byte(each[i])) // the front part of a larger buffer of the caller's, overwritten once the parser has returned
 			defer vk.Scribble(buf)
-			return []poly.Sequence{genbank.Parse(buf)}
+			res := []poly.Sequence{genbank.Parse(buf)}
+			guardErr = intact()
+			return res
 		})
 		if err != nil {
 			return fmt.Errorf("%v\n--- record text ---\n%s", err, clip(each[i]))
+		}
+		if guardErr != nil {
+			return fmt.Errorf("Parse(record %d): %v", i, guardErr)
 		}
 		if err := gbk.Compare(fmt.Sprintf("Parse(record %d)", i), got[0], r.Expected()); err != nil {
 			return fmt.Errorf("%v\n--- record text ---\n%s", err, clip(each[i]))
@@ -72,24 +78,31 @@ func check(c Case) error {
 	}
 	// the whole file
 	var multi []poly.Sequence
-	var err error
+	var err, wholeGuardErr error
 	name := "ParseMulti"
 	if c.FlatHeader {
 		name = "ParseFlat"
 		multi, err = parse(name, func() []poly.Sequence {
-			buf := []byte(whole)
+			buf, intact := vk.Guarded([]byte(whole))
 			defer vk.Scribble(buf)
-			return genbank.ParseFlat(buf)
+			res := genbank.ParseFlat(buf)
+			wholeGuardErr = intact()
+			return res
 		})
 	} else {
 		multi, err = parse(name, func() []poly.Sequence {
-			buf := []byte(whole)
+			buf, intact := vk.Guarded([]byte(whole))
 			defer vk.Scribble(buf)
-			return genbank.ParseMulti(buf)
+			res := genbank.ParseMulti(buf)
+			wholeGuardErr = intact()
+			return res
 		})
 	}
 	if err != nil {
 		return err
+	}
+	if wholeGuardErr != nil {
+		return fmt.Errorf("%s: %v", name, wholeGuardErr)
 	}
 	if len(multi) != len(c.Records) {
 		return vk.Errf("%s returned %d results for a file of %d records (final newline: %v)", name, len(multi), len(c.Records), c.FinalNewline)
@@ -152,6 +165,25 @@ func check(c Case) error {
 		}
 		if err := gbk.SameParsed("Read vs Parse", one[0], alone[0]); err != nil {
 			return err
+		}
+	}
+	// the results belong to the caller: after every one of them has been written into (qualifier maps, location
+	// trees, reference and feature lists), every record parses again to what it states
+	for i := range alone {
+		gbk.Vandalise(&alone[i])
+	}
+	for i := range multi {
+		gbk.Vandalise(&multi[i])
+	}
+	for i, r := range c.Records {
+		again, err := parse(fmt.Sprintf("Parse(record %d) after the earlier results were edited", i), func() []poly.Sequence {
+			return []poly.Sequence{genbank.Parse([]byte(each[i]))}
+		})
+		if err != nil {
+			return err
+		}
+		if err := gbk.Compare(fmt.Sprintf("Parse(record %d), a second time, after the caller had written into the earlier results", i), again[0], r.Expected()); err != nil {
+			return fmt.Errorf("%v\n--- record text ---\n%s", err, clip(each[i]))
 		}
 	}
 	return nil
